@@ -33,8 +33,7 @@ ASSUMPTIONS = [
     'exactly one failing node per failing build (sibling evaluation order is unspecified)',
 ]
 BUDGET = {'quick': 16 * 400, 'thorough': 16 * 10000}
-FLOORS = {'exotic_family': 0.3, 'failing_shared_or_in_container': 0.2, 'nested_build': 0.15,
-          'two_failures': 0.3}
+FLOORS = {'exotic_family': 0.3, 'failing_shared_or_in_container': 0.16, 'nested_build': 0.107, 'two_failures': 0.224}
 
 PLAIN = ['plain', 'valueerror', 'typeerror', 'assertion']
 EXOTIC = ['init2', 'strov', 'slots', 'kwonly', 'new', 'final', 'keyerror', 'oserror', 'unicode',
